@@ -7,6 +7,7 @@
   IEEE doubles enter only through the correspondence check.
 -/
 import SkyllhModel.Model.SigGen
+import SkyllhModel.Model.SigGenR7
 import SkyllhModel.Generated.C18
 import SkyllhModel.Proofs.SigGen
 import SkyllhModel.Proofs.RealScalar
@@ -1653,3 +1654,338 @@ example :
   decide +kernel
 
 end examplesQ
+
+
+/-! ## Round 7: the mask of the surplus removal as per-step state; the whole method as one function -/
+
+section r7generic
+variable {F : Type} [Add F] [Mul F] [Div F] [LE F] [DecidableLE F] [LT F] [DecidableLT F] [OfNat F 0]
+
+/-- **why the class needs a rounding overshoot ≥ 2**: for a surplus of ONE event, taking the mask `n > 0` once before
+the loop and taking it per removed event are the same computation — for every scalar type, weight vector and deviate. -/
+theorem c18_decr_hoisted_eq_single (right : Bool) (w : List F) (n : List Int) (u : F) :
+    decrHoisted right w n [u] = decr right w n [u] := by
+  simp only [decrHoisted, decr, decrOrig]
+
+/-- the entry of the method: with `poisson` the total is the Poisson draw (and the mean was not negative), otherwise
+the cast argument -/
+theorem c18_entry_total (poisson : Bool) (trunc : F → Option Int) (meanArg : F) (pdraw mean : Int)
+    (h : entryTotal poisson trunc meanArg pdraw = some mean) :
+    (poisson = true → mean = pdraw ∧ ¬ meanArg < 0) ∧ (poisson = false → trunc meanArg = some mean) := by
+  unfold entryTotal at h
+  cases poisson
+  · simpa using h
+  · simp only [if_true] at h
+    split_ifs at h with hneg
+    simp only [Option.some.injEq] at h
+    exact ⟨fun _ => ⟨h.symm, hneg⟩, fun hf => by simp at hf⟩
+
+/-- **the whole method conserves the count** (`MultiDatasetSignalGenerator.generate_signal_events`: entry, rounding and
+correction, loop over the per-dataset generators) — for every scalar type (doubles included), rounding and cast
+function, weight vector, deviates: whenever it returns, the reported number equals the total the entry produced (Poisson
+draw or cast argument) and equals the number of events in the returned dictionary; no more deviates are used than supplied.
+Only hypothesis: every per-dataset generator returns as many events as it is asked for. -/
+theorem c18_multi_generate_conserved (right : Bool) (rnd : F → Int) (trunc : F → Option Int) (ofInt : Int → F)
+    (poisson : Bool) (meanArg : F) (pdraw : Int) (w us : List F) (gens : List DsGen)
+    (hsub : ∀ g ∈ gens, ∀ c r, g c = some r → (r.1 : Int) = c ∧ (r.2.map (·.2)).sum = r.1)
+    (n : Nat) (d : List (Nat × Nat)) (k : Nat)
+    (h : multiGenerate right rnd trunc ofInt poisson meanArg pdraw w us gens = some (n, d, k)) :
+    ∃ mean, entryTotal poisson trunc meanArg pdraw = some mean ∧ (n : Int) = mean ∧ (d.map (·.2)).sum = n
+      ∧ k ≤ us.length := by
+  unfold multiGenerate at h
+  split at h
+  · exact absurd h (by simp)
+  · rename_i mean hm
+    split at h
+    · exact absurd h (by simp)
+    · rename_i counts k' hd
+      split at h
+      · exact absurd h (by simp)
+      · rename_i n' d' ha
+        simp only [Option.some.injEq, Prod.mk.injEq] at h
+        obtain ⟨rfl, rfl, rfl⟩ := h
+        obtain ⟨s1, _, s3⟩ := c18_sum_eq_mean right rnd mean (ofInt mean) w us counts _ hd
+        obtain ⟨a1, a2⟩ := c18_multi_count_conserved counts gens hsub _ _ ha
+        exact ⟨mean, hm, by rw [a1, s1], a2, s3⟩
+
+end r7generic
+
+namespace C18
+/-- the loop over the per-dataset generators is defined when every request is non-negative and every generator serves
+non-negative requests -/
+theorem aggLoop_total : ∀ (counts : List Int) (gens : List DsGen) (n : Nat) (d : List (Nat × Nat)),
+    (∀ c ∈ counts, 0 ≤ c) → (∀ g ∈ gens, ∀ c, 0 ≤ c → ∃ r, g c = some r) → ∃ r, aggLoop n d counts gens = some r
+  | [], gens, n, d, _, _ => by cases gens <;> exact ⟨_, rfl⟩
+  | _ :: _, [], n, d, _, _ => ⟨_, rfl⟩
+  | c :: cs, g :: gs, n, d, hc, hg => by
+    obtain ⟨⟨k, ev⟩, hr⟩ := hg g (by simp) c (hc c (by simp))
+    simp only [aggLoop, hr]
+    exact aggLoop_total cs gs _ _ (fun c' h' => hc c' (by simp [h'])) (fun g' h' => hg g' (by simp [h']))
+end C18
+
+section r7field
+variable {K : Type} [Field K] [LinearOrder K] [IsStrictOrderedRing K]
+
+/-- **the whole method returns under the guard** — and therefore never hands a negative request to a per-dataset
+generator: non-negative total out of the entry, non-negative weights with positive sum, deviates in `[0,1)`, admissible
+rounding, enough deviates, one generator per dataset, generators that serve every non-negative request. -/
+theorem c18_multi_generate_no_error (rnd : K → Int) (hr : C18.RoundOK rnd) (trunc : K → Option Int) (ofInt : Int → K)
+    (hof : ∀ z : Int, 0 ≤ z → 0 ≤ ofInt z) (poisson : Bool) (meanArg : K) (pdraw mean : Int)
+    (he : entryTotal poisson trunc meanArg pdraw = some mean) (hmean : 0 ≤ mean)
+    (w us : List K) (hnn : ∀ x ∈ w, 0 ≤ x) (hs : 0 < w.sum) (hu : ∀ u ∈ us, 0 ≤ u ∧ u < 1)
+    (hk : (mean - (roundCounts rnd (ofInt mean) w).sum).natAbs ≤ us.length)
+    (gens : List DsGen) (hlen : gens.length = w.length)
+    (hdef : ∀ g ∈ gens, ∀ c, 0 ≤ c → ∃ r, g c = some r) :
+    ∃ n d k, multiGenerate true rnd trunc ofInt poisson meanArg pdraw w us gens = some (n, d, k) := by
+  obtain ⟨counts, k, hd, hI⟩ := C18.distribute_ok rnd hr mean hmean (ofInt mean) (hof mean hmean) w us hnn hs hu hk
+  have hc : ∀ c ∈ counts, 0 ≤ c := by
+    intro x hx
+    obtain ⟨i, hi, rfl⟩ := List.getElem_of_mem hx
+    exact (hI.2 i hi (by rw [← hI.1]; exact hi)).1
+  obtain ⟨⟨n, d⟩, ha⟩ := C18.aggLoop_total counts gens 0 [] hc hdef
+  refine ⟨n, d, k, ?_⟩
+  unfold multiGenerate
+  simp only [he, hd]
+  have : aggregate counts gens = some (n, d) := by
+    unfold aggregate
+    rw [if_neg (by rw [hlen, hI.1]; simp), ha]
+  simp only [this]
+
+end r7field
+
+/-- `int()` on ℚ is the identity on integers … -/
+theorem c18_truncQ_int (z : Int) : truncQ (z : ℚ) = some z := by
+  unfold truncQ
+  by_cases h : (0 : ℚ) ≤ (z : ℚ)
+  · simp [h]
+  · simp only [h, if_false, Option.some.injEq]
+    rw [← Int.cast_neg, Rat.floor_intCast]; ring
+
+/-- … and maps a non-negative argument to a non-negative total not above it (`int(3.9) = 3`): the hypothesis
+`0 ≤ mean` of `c18_multi_generate_no_error` is established by the cast for every non-negative argument -/
+theorem c18_truncQ_nonneg (q : ℚ) (hq : 0 ≤ q) : ∃ t, truncQ q = some t ∧ 0 ≤ t ∧ (t : ℚ) ≤ q ∧ q < t + 1 := by
+  refine ⟨q.floor, by simp [truncQ, hq], Rat.le_floor_iff.mpr (by simpa using hq), ?_, ?_⟩
+  · exact Rat.floor_le q
+  · exact_mod_cast Rat.lt_floor_add_one q
+
+/-- the claim "per-dataset numbers are non-negative" for a removal loop that takes the mask `n > 0` once, before the
+loop (NOT the code: `decrHoisted`) -/
+def c18_nonneg_hoisted_statement : Prop :=
+  ∀ (mean : Int) (w us : List ℚ) (n : List Int) (k : Nat), 0 ≤ mean → (∀ x ∈ w, 0 ≤ x) → 0 < w.sum →
+    (∀ u ∈ us, 0 ≤ u ∧ u < 1) → distributeHoisted true rintQ mean (mean : ℚ) w us = some (n, k) →
+    ∀ x ∈ n, 0 ≤ x
+
+/-- **the mask must be re-read after every removed event**: five datasets of weight 1/5, total 3: rounding gives
+(1,1,1,1,1), surplus 2; with the stale mask the deviates (0, 0) take both events from dataset 0: (−1,1,1,1,1). -/
+theorem c18_nonneg_hoisted_counterexample : ¬ c18_nonneg_hoisted_statement := by
+  intro h
+  have e : distributeHoisted true rintQ 3 ((3 : Int) : ℚ) [1/5, 1/5, 1/5, 1/5, 1/5] [0, 0]
+      = some ([-1, 1, 1, 1, 1], 2) := by decide +kernel
+  have := h 3 [1/5, 1/5, 1/5, 1/5, 1/5] [0, 0] [-1, 1, 1, 1, 1] 2 (by norm_num)
+    (by intro x hx; simp only [List.mem_cons, List.not_mem_nil, or_false] at hx; rcases hx with rfl | rfl | rfl | rfl | rfl <;> norm_num)
+    (by norm_num) (by intro u hu; simp only [List.mem_cons, List.not_mem_nil, or_false] at hu; rcases hu with rfl | rfl <;> norm_num)
+    e (-1) (by simp)
+  omega
+
+/-- on the same input the code re-reads the mask: the second event comes from the next dataset that still has one -/
+example : distribute true rintQ 3 ((3 : Int) : ℚ) [1/5, 1/5, 1/5, 1/5, 1/5] [0, 0] = some ([0, 0, 1, 1, 1], 2) := by
+  decide +kernel
+
+/-- the whole method on ℚ: argument 3.9 → total 3, surplus 2 removed from datasets 0 and 1, five recording generators -/
+example : multiGenerate true rintQ truncQ (fun z => (z : ℚ)) false (39/10) 0 [1/5, 1/5, 1/5, 1/5, 1/5] [0, 0]
+    ((List.range 5).map fun j c => if c < 0 then none else some (c.toNat, [(j, c.toNat)]))
+    = some (3, [(0, 0), (1, 0), (2, 1), (3, 1), (4, 1)], 2) := by
+  decide +kernel
+
+/-- a negative Poisson mean and a missing generator are refused -/
+example : multiGenerate true rintQ truncQ (fun z => (z : ℚ)) true (-1) 4 [1/2, 1/2] [0, 0]
+    ((List.range 2).map fun j c => if c < 0 then none else some (c.toNat, [(j, c.toNat)])) = none := by
+  decide +kernel
+example : multiGenerate true rintQ truncQ (fun z => (z : ℚ)) false 4 0 [1/2, 1/2] []
+    ((List.range 1).map fun j c => if c < 0 then none else some (c.toNat, [(j, c.toNat)])) = none := by
+  decide +kernel
+
+
+/-! ### how far a per-dataset number can be from its rounded share -/
+
+namespace C18
+section r7pt
+variable {F : Type} [Add F] [Mul F] [Div F] [LE F] [DecidableLE F] [LT F] [DecidableLT F] [OfNat F 0]
+
+theorem bump_get_bounds (n n' : List Int) (i : Nat) (d : Int) (hb : bump n i d = some n') (j : Nat) (x' : Int)
+    (h' : n'[j]? = some x') : ∃ x, n[j]? = some x ∧ (x' = x ∨ x' = x + d) := by
+  have := bump_get n i d n' hb j
+  rw [h'] at this
+  split_ifs at this with hji
+  · cases hn : n[j]? with
+    | none => rw [hn] at this; simp at this
+    | some x =>
+      rw [hn] at this
+      simp only [Option.map_some, Option.some.injEq] at this
+      exact ⟨x, rfl, Or.inr this⟩
+  · exact ⟨x', this.symm, Or.inl rfl⟩
+
+theorem decr_pointwise (right : Bool) (w : List F) : ∀ (us : List F) (n n' : List Int),
+    decr right w n us = some n' → ∀ (j : Nat) (x' : Int), n'[j]? = some x' →
+      ∃ x, n[j]? = some x ∧ x - us.length ≤ x' ∧ x' ≤ x
+  | [], n, n', h, j, x', h' => by
+    simp only [decr, Option.some.injEq] at h; subst h; exact ⟨x', h', by simp, le_refl _⟩
+  | u :: us, n, n', h, j, x', h' => by
+    simp only [decr] at h
+    split at h
+    · exact absurd h (by simp)
+    · rename_i t ht
+      obtain ⟨y, hy, h1, h2⟩ := decr_pointwise right w us t n' h j x' h'
+      obtain ⟨x, hx, hor⟩ := bump_get_bounds _ _ _ _ ht j y hy
+      refine ⟨x, hx, ?_, ?_⟩ <;> (try simp only [List.length_cons]) <;> (try push_cast) <;> (rcases hor with rfl | rfl <;> omega)
+
+theorem incr_pointwise (right : Bool) (w : List F) : ∀ (us : List F) (n n' : List Int),
+    incr right w n us = some n' → ∀ (j : Nat) (x' : Int), n'[j]? = some x' →
+      ∃ x, n[j]? = some x ∧ x ≤ x' ∧ x' ≤ x + us.length
+  | [], n, n', h, j, x', h' => by
+    simp only [incr, Option.some.injEq] at h; subst h; exact ⟨x', h', le_refl _, by simp⟩
+  | u :: us, n, n', h, j, x', h' => by
+    simp only [incr] at h
+    split at h
+    · exact absurd h (by simp)
+    · rename_i t ht
+      obtain ⟨y, hy, h1, h2⟩ := incr_pointwise right w us t n' h j x' h'
+      obtain ⟨x, hx, hor⟩ := bump_get_bounds _ _ _ _ ht j y hy
+      refine ⟨x, hx, ?_, ?_⟩ <;> (try simp only [List.length_cons]) <;> (try push_cast) <;> (rcases hor with rfl | rfl <;> omega)
+
+end r7pt
+end C18
+
+section r7share
+variable {F : Type} [Add F] [Mul F] [Div F] [LE F] [DecidableLE F] [LT F] [DecidableLT F] [OfNat F 0]
+
+/-- **each per-dataset number stays within the size of the correction of its rounded share** — for every scalar type:
+the number of deviates consumed is `|total − Σ rounded shares|`, dataset `j` ends within that distance of
+`round(total · w_j)`, a top-up never lowers and a surplus removal never raises a dataset's number.
+(The harness oracle `|n_j − total·w_j| ≤ ½ + J/2` is this plus `|round x − x| ≤ ½`.) -/
+theorem c18_count_near_rounded_share (right : Bool) (rnd : F → Int) (mean : Int) (m : F) (w us : List F)
+    (n : List Int) (k : Nat) (h : distribute right rnd mean m w us = some (n, k)) :
+    (k : Int) = |mean - (roundCounts rnd m w).sum| ∧
+    ∀ (j : Nat) (x : Int), n[j]? = some x → ∃ wj, w[j]? = some wj ∧ rnd (m * wj) - k ≤ x ∧ x ≤ rnd (m * wj) + k
+      ∧ ((roundCounts rnd m w).sum ≤ mean → rnd (m * wj) ≤ x)
+      ∧ (mean ≤ (roundCounts rnd m w).sum → x ≤ rnd (m * wj)) := by
+  unfold distribute distributeWith at h
+  simp only at h
+  have hrc : ∀ (j : Nat) (y : Int), (roundCounts rnd m w)[j]? = some y → ∃ wj, w[j]? = some wj ∧ y = rnd (m * wj) := by
+    intro j y hy
+    simp only [roundCounts, List.getElem?_map, Option.map_eq_some_iff] at hy
+    obtain ⟨wj, hwj, rfl⟩ := hy
+    exact ⟨wj, hwj, rfl⟩
+  by_cases h1 : (roundCounts rnd m w).sum < mean
+  · rw [if_pos h1] at h
+    by_cases h2 : us.length < (mean - (roundCounts rnd m w).sum).toNat
+    · rw [if_pos h2] at h; exact absurd h (by simp)
+    · rw [if_neg h2] at h
+      simp only [Option.map_eq_some_iff, Prod.mk.injEq] at h
+      obtain ⟨t, ht, rfl, rfl⟩ := h
+      have hl : (List.take (mean - (roundCounts rnd m w).sum).toNat us).length
+          = (mean - (roundCounts rnd m w).sum).toNat := by
+        rw [List.length_take]; omega
+      refine ⟨by rw [abs_of_pos (by omega)]; omega, ?_⟩
+      intro j x hx
+      obtain ⟨y, hy, b1, b2⟩ := C18.incr_pointwise right w _ _ _ ht j x hx
+      obtain ⟨wj, hwj, rfl⟩ := hrc j y hy
+      rw [hl] at b2
+      exact ⟨wj, hwj, by omega, by omega, fun _ => b1, fun _ => by omega⟩
+  · rw [if_neg h1] at h
+    by_cases h3 : mean < (roundCounts rnd m w).sum
+    · rw [if_pos h3] at h
+      by_cases h2 : us.length < ((roundCounts rnd m w).sum - mean).toNat
+      · rw [if_pos h2] at h; exact absurd h (by simp)
+      · rw [if_neg h2] at h
+        simp only [Option.map_eq_some_iff, Prod.mk.injEq] at h
+        obtain ⟨t, ht, rfl, rfl⟩ := h
+        have hl : (List.take ((roundCounts rnd m w).sum - mean).toNat us).length
+            = ((roundCounts rnd m w).sum - mean).toNat := by
+          rw [List.length_take]; omega
+        refine ⟨by rw [abs_of_neg (by omega)]; omega, ?_⟩
+        intro j x hx
+        obtain ⟨y, hy, b1, b2⟩ := C18.decr_pointwise right w _ _ _ ht j x hx
+        obtain ⟨wj, hwj, rfl⟩ := hrc j y hy
+        rw [hl] at b1
+        exact ⟨wj, hwj, by omega, by omega, fun _ => by omega, fun _ => b2⟩
+    · rw [if_neg h3] at h
+      simp only [Option.some.injEq, Prod.mk.injEq] at h
+      obtain ⟨rfl, rfl⟩ := h
+      have e : mean - (roundCounts rnd m w).sum = 0 := by omega
+      refine ⟨by rw [e]; simp, ?_⟩
+      intro j x hx
+      obtain ⟨wj, hwj, rfl⟩ := hrc j x hx
+      exact ⟨wj, hwj, by simp, by simp, fun _ => le_refl _, fun _ => le_refl _⟩
+
+end r7share
+
+/-- non-vacuity: total 3 over five equal weights — two deviates, every dataset within 2 of its rounded share 1 -/
+example : ∃ n, distribute true rintQ 3 ((3 : Int) : ℚ) [1/5, 1/5, 1/5, 1/5, 1/5] [0, 0] = some (n, 2) ∧
+    (2 : Int) = |3 - (roundCounts rintQ ((3 : Int) : ℚ) [1/5, 1/5, 1/5, 1/5, 1/5]).sum| :=
+  ⟨[0, 0, 1, 1, 1], by decide +kernel, by decide +kernel⟩
+
+
+/-! ### the share bound of the harness oracle, proved -/
+
+section r7bound
+variable {K : Type} [Field K] [LinearOrder K] [IsStrictOrderedRing K]
+
+namespace C18
+/-- a rounding function that stays within ½ of its argument -/
+def RoundHalf (rnd : K → Int) : Prop := ∀ x, |((rnd x : Int) : K) - x| ≤ 1 / 2
+
+theorem roundCounts_sum_near (rnd : K → Int) (hh : RoundHalf rnd) (m : K) : ∀ w : List K,
+    |(((roundCounts rnd m w).sum : Int) : K) - m * w.sum| ≤ (w.length : K) / 2
+  | [] => by simp [roundCounts]
+  | a :: w => by
+    have ih := roundCounts_sum_near rnd hh m w
+    have ha := hh (m * a)
+    simp only [roundCounts, List.map_cons, List.sum_cons, List.length_cons, Int.cast_add, Nat.cast_add, Nat.cast_one,
+      mul_add] at ih ⊢
+    rw [abs_le] at ih ha ⊢
+    constructor <;> linarith [ih.1, ih.2, ha.1, ha.2]
+end C18
+
+/-- **the share bound** (was oracle-only): with weights that add up to 1 and a rounding within ½, the correction uses at
+most `J/2` deviates and every dataset ends within `½ + J/2` of its exact share `total · w_j` (J = number of datasets). -/
+theorem c18_share_bound (right : Bool) (rnd : K → Int) (hh : C18.RoundHalf rnd) (mean : Int) (w us : List K)
+    (hsum : w.sum = 1) (n : List Int) (k : Nat) (h : distribute right rnd mean (mean : K) w us = some (n, k)) :
+    (k : K) ≤ (w.length : K) / 2 ∧
+    ∀ (j : Nat) (x : Int), n[j]? = some x →
+      ∃ wj, w[j]? = some wj ∧ |(x : K) - (mean : K) * wj| ≤ 1 / 2 + (w.length : K) / 2 := by
+  obtain ⟨hk, hp⟩ := c18_count_near_rounded_share right rnd mean (mean : K) w us n k h
+  have hs := C18.roundCounts_sum_near rnd hh (mean : K) w
+  rw [hsum, mul_one] at hs
+  have hkK : (k : K) ≤ (w.length : K) / 2 := by
+    have : ((k : Int) : K) = |(mean : K) - (((roundCounts rnd (mean : K) w).sum : Int) : K)| := by
+      rw [hk]; push_cast; rfl
+    rw [abs_sub_comm] at this
+    have h2 : ((k : Int) : K) = (k : K) := by push_cast; rfl
+    rw [← h2, this]; exact hs
+  refine ⟨hkK, ?_⟩
+  intro j x hx
+  obtain ⟨wj, hwj, b1, b2, _, _⟩ := hp j x hx
+  refine ⟨wj, hwj, ?_⟩
+  have hr := hh ((mean : K) * wj)
+  have c1 : ((rnd ((mean : K) * wj) : Int) : K) - (k : K) ≤ (x : K) := by exact_mod_cast b1
+  have c2 : (x : K) ≤ ((rnd ((mean : K) * wj) : Int) : K) + (k : K) := by exact_mod_cast b2
+  rw [abs_le] at hr ⊢
+  constructor <;> linarith [hr.1, hr.2]
+
+end r7bound
+
+/-- round-half-to-even on ℚ stays within ½ -/
+theorem c18_rintQ_half : C18.RoundHalf rintQ := by
+  intro x
+  have f1 : ((x.floor : Int) : ℚ) ≤ x := Rat.floor_le x
+  have f2 : x < ((x.floor : Int) : ℚ) + 1 := by exact_mod_cast Rat.lt_floor_add_one x
+  unfold rintQ
+  simp only
+  rw [abs_le]
+  split_ifs <;> (push_cast; constructor <;> linarith)
+
+/-- non-vacuity: five equal weights, total 3 — two deviates ≤ 5/2, every number within 3 of its share 0.6 -/
+example : ([1/5, 1/5, 1/5, 1/5, 1/5] : List ℚ).sum = 1 ∧
+    distribute true rintQ 3 ((3 : Int) : ℚ) [1/5, 1/5, 1/5, 1/5, 1/5] [0, 0] = some ([0, 0, 1, 1, 1], 2) :=
+  ⟨by norm_num, by decide +kernel⟩
